@@ -1079,12 +1079,39 @@ func c01R15(c *Ctx) {
 			}
 		}
 	}
+	// a parameter object (`onStageComplete(stageCompletion{…})`): the first *string field of a struct parameter
+	var prevField *types.Var
 	if prev == nil {
+		for _, p := range fn.Params[1:] {
+			st := structOf(p.Type())
+			if st == nil || prevField != nil {
+				continue
+			}
+			for i := 0; i < st.NumFields(); i++ {
+				if pt, ok := st.Field(i).Type().Underlying().(*types.Pointer); ok {
+					if bt, ok := pt.Elem().Underlying().(*types.Basic); ok && bt.Kind() == types.String {
+						prevField = st.Field(i)
+						break
+					}
+				}
+			}
+		}
+	}
+	if prev == nil && prevField == nil {
 		c.unresolved("previous-stage parameter of onStageComplete")
 		return
 	}
 	isPrev := func(v ssa.Value) bool {
 		return derivesFrom(v, func(x ssa.Value) bool {
+			if prevField != nil {
+				if loadedField(x) == prevField {
+					return true
+				}
+				if f, ok := x.(*ssa.Field); ok && fieldValVar(f) == prevField {
+					return true
+				}
+				return false
+			}
 			if x == ssa.Value(prev) {
 				return true
 			}
